@@ -380,8 +380,16 @@ impl Gen {
             }
             V_ACT => {
                 let act = if self.regime == Regime::Int { Act::Relu } else { *self.rng.pick(&[Act::Relu, Act::Sigmoid, Act::Softmax]) };
-                let dst = self.dst_for(sim, &[x]);
-                out.push(Ev::Build { dst, op: Op::Activation { act, detach: self.rng.chance(1, 2) }, args: vec![x] });
+                if self.rng.chance(30, 100) {
+                    // the same closure object on an untracked clone first, then on the array itself
+                    let d0 = self.fresh_slot();
+                    out.push(Ev::Build { dst: d0, op: Op::Activation { act, detach: true }, args: vec![x] });
+                    let d1 = self.fresh_slot();
+                    out.push(Ev::Build { dst: d1, op: Op::Activation { act, detach: false }, args: vec![x] });
+                } else {
+                    let dst = self.dst_for(sim, &[x]);
+                    out.push(Ev::Build { dst, op: Op::Activation { act, detach: self.rng.chance(1, 2) }, args: vec![x] });
+                }
             }
             V_STACK => {
                 let same: Vec<Slot> = sim.live_slots().into_iter().filter(|s| Self::dims_of(sim, *s) == xd).collect();
